@@ -20,8 +20,18 @@ package main
 //@   ensures[positive] ret1 == nil ==> ret0 > 0
 //@   ensures[default]  !param.Set ==> ret1 == nil && ret0 == defaultStep(start, end)
 
+// Whole numbers of up to ten digits are unix seconds, longer ones unix nanoseconds (so the two
+// spellings n and n*1e9 of an instant between 2001 and 2200 denote the same time); whatever is
+// not a number is read as RFC3339 with nanoseconds.
 //@ func parseTimestamp
+//@   capture pi = call(strconv.ParseInt, 0)
+//@   capture tp = call(time.Parse, 0)
 //@   ensures[default] lt == "" ==> ret1 == nil && ret0 == def
+//@   ensures[number-read-from-the-whole-text] pi_called ==> pi_a0 == string(lt) && pi_a1 == 10 && pi_a2 == 64
+//@   ensures[up-to-ten-digits-are-seconds] pi_called && pi_r1 == nil && len(lt) <= 10 ==> ret1 == nil && ret0 == time.Unix(pi_r0, 0)
+//@   ensures[longer-numbers-are-nanoseconds] pi_called && pi_r1 == nil && len(lt) > 10 ==> ret1 == nil && ret0 == time.Unix(0, pi_r0)
+//@   ensures[anything-else-is-RFC3339] pi_called && pi_r1 != nil ==> tp_called && tp_a0 == time.RFC3339Nano && tp_a1 == string(lt) && ret0 == tp_r0 && ret1 == tp_r1
+//@   ensures[no-silent-default] lt != "" && ret1 == nil ==> (pi_called && pi_r1 == nil) || (tp_called && tp_r1 == nil) || strings.Contains(string(lt), ".")
 
 //@ func parseTimeRange
 //@   capture pe = call(parseTimestamp, 0)
